@@ -88,7 +88,7 @@ def run(ctx):
                 need = {f.locals[i].get("name") for i in range(1, f.arg_count + 1)}
                 ctx.ob("E6.uses-all", "%s->%s" % (fk, s.callee[0]), need <= {__import__("re").split(r"[ .]", r)[0] for r in roots}, "verifier forwards every one of its inputs %s (forwarded: %s)" % (sorted(need), sorted(roots)), where=where(f, bb))
         ctx.ob("E5.chain.anchor", fk, n >= 1, "%d scheme verification call(s) in %s" % (n, fk), where=where(f))
-    K.check_core_table(ctx, P)
+    K.check_core_table(ctx, P, methods=("verify", "partial_verify", "multi_sig_verify", "sign", "partial_sign"))
     K.check_hash_to_point_routing(ctx, P, rule="E5.chain.h2c")
     # relabelling a scheme must change the tag; decision must equal IETF CoreVerify: tag table
     check_tag_table(ctx, P)
